@@ -635,7 +635,7 @@ func (w *World) CheckCleanFailure(out *Outcome, o *Obs) []Violation {
 	if w.hasSubst() {
 		return vs
 	}
-	cfgBad := w.configDemand()
+	cfgBad, cfgWhy := w.ConfigDemand()
 	if af := ActiveFault(w.P); af != "" {
 		// a configuration source that cannot be loaded / decoded: clean failure demanded
 		switch {
@@ -649,18 +649,11 @@ func (w *World) CheckCleanFailure(out *Outcome, o *Obs) []Violation {
 		}
 		return vs
 	}
-	for _, t := range w.P.Types {
-		for _, cf := range t.Config {
-			if cf.Validate != "" || cf.Menu == "sum" || cf.Menu == "mul" || cf.Menu == "nested" || cf.Menu == "sumDef" {
-				cfgBad = "open" // validation / expression outcomes are C18's business
-			}
-		}
-	}
 	switch {
 	case out.Verdict == MustFail || cfgBad == "must-fail":
 		why := out.Why
 		if out.Verdict != MustFail {
-			why = "a required configuration value is missing"
+			why = cfgWhy
 		}
 		if o.Panic != "" {
 			vs = append(vs, v("C09", "unsatisfied-required-panic", why, fmt.Sprintf("%s: Run panicked instead of returning an error: %s [%s]", why, o.Panic, o.PanicStk)))
@@ -704,41 +697,3 @@ func faultKindOf(site string) string {
 	return k
 }
 
-// configDemand: "must-fail" if a required configuration field of a definitely created
-// component has no value, "" if all required values are present, "open" otherwise.
-func (w *World) configDemand() string {
-	res := ""
-	for _, i := range w.P.Instances {
-		t := w.Types[i.Type]
-		for _, cf := range t.Config {
-			if cf.Optional {
-				continue
-			}
-			missing := false
-			for _, k := range cf.Keys {
-				if _, ok := w.Cfg[k]; !ok && cf.Default == "" {
-					// prefixStruct is satisfied by any key below the prefix
-					if cf.Menu == "prefixStruct" {
-						found := false
-						for ck := range w.Cfg {
-							if strings.HasPrefix(ck, k+".") {
-								found = true
-							}
-						}
-						if found {
-							continue
-						}
-					}
-					missing = true
-				}
-			}
-			if missing {
-				if !t.Lazy {
-					return "must-fail"
-				}
-				res = "open"
-			}
-		}
-	}
-	return res
-}
